@@ -96,6 +96,11 @@ func (c *watchCase) line(toks []string) (string, bool) {
 		r, _ := strconv.Atoi(toks[1])
 		os.WriteFile(filepath.Join(c.dir, rootDirs[r], unhex(toks[2])), []byte("collision_mode = \"off\"\n"), 0o666)
 		return "", false
+	case "w.nodir":
+		// one of the four directories does not exist when the watcher starts (and is not created later)
+		r, _ := strconv.Atoi(toks[1])
+		os.RemoveAll(filepath.Join(c.dir, rootDirs[r]))
+		return "", false
 	case "w.start":
 		os.Chdir(c.dir)
 		c.ctx, c.cancel = context.WithCancel(context.Background())
